@@ -196,6 +196,7 @@ def table_text(rows):
 
 # ------------------------------------------------------------------ the check
 def run(ctx):
+    C.config_matrix(ctx["report"], ctx["rundir"], "C20", ["1 eur to usd", "1 usd to eur", "100 eur to gbp", "(1 eur to jpy) jpy to eur", "((1 eur to usd) usd to gbp) - (1 eur to gbp) < 1e-9", "1 pab to usd", "1000000 usd to eur", "1 btc to vnd", "1 $ to eur", "1 keur to usd"])
     C.seam_check(ctx["report"], ctx["rundir"], "C20",
                  texts=["1 usd to gbp", "100 jpy to eur", "1 vnd to btc", "0.001 jpy to btc", "(1 vnd to btc) btc to vnd", "1 zwg to usd", "1 usd to zwg", "3 eur to usd + 1 usd",
                         "1 btc to vnd", "1 usd to kg", "2.5 gbp to gbp"],
